@@ -18,11 +18,13 @@
    with a scaled rate float(4*N0*r) that is not numerically zero, with rate y/(4*N0) for a y
    numerically equal to float(4*N0*r), and none otherwise.  The arithmetic hypotheses are collected
    in RoundTripArith (each holds in exact arithmetic; x*1 = x and "x/k is a number" are proved for
-   binary64 in Proofs/NumFArith.v). *)
+   binary64 in Proofs/NumFArith.v).  C09_round_trip_rate_exact (Proofs/RoundTripQ.v): in exact rational
+   arithmetic every hypothesis of RoundTripArith follows from the validity of g, and the migration comes
+   back with exactly its rate ((4*N0*r)/(4*N0) == r); a zero-rate migration does not come back. *)
 From Coq Require Import ZArith Bool List String QArith Arith.
 From Demes Require Import Base.Num Base.Py Model.MDM Model.InGen Model.MsOpt Model.ToMs Model.FromMs
   Model.FloatStr Spec.Valid Spec.MsSem Proofs.MsRates Proofs.FromMsRefine Proofs.FromMsHistory
-  Proofs.FromMsRates Proofs.MsRoundTrip.
+  Proofs.FromMsRates Proofs.MsRoundTrip Base.NumQ Proofs.RoundTripQ.
 Import ListNotations.
 Local Open Scope Z_scope.
 
@@ -70,7 +72,24 @@ Section C09.
   Proof. exact (ms_round_trip_rates g0 g N0 n evs evs' h T i j di dj). Qed.
 End C09.
 
+Theorem C09_round_trip_rate_exact (g0 g : @graph NumQ) (r : Q) (k : bool) n evs evs' h T i j di dj m :
+  (0 < r)%Q -> finnnQ T ->
+  let N0 : qx := QF r k in
+  in_generations g0 = Ok g -> Valid g ->
+  to_ms_unscaled g0 N0 = Ok (n, evs) ->
+  to_ms_events g0 N0 = Ok (n, evs') ->
+  build_graph (mkCmd n true n0 [] evs') N0 = Ok h ->
+  nth_error (g_demes g) i = Some di -> nth_error (g_demes g) j = Some dj -> i <> j ->
+  nlt T (d_start di) = true -> nlt T (d_start dj) = true ->
+  active_mig g (d_name dj) (d_name di) T = Some m ->
+  let back := gmigs_in_force h (deme_name (S j)) (deme_name (S i)) (scale N0 (dv N0 T)) in
+  exists a ja, m_rate m = QF a ja /\
+    ((a == 0)%Q -> back = []) /\
+    (~ (a == 0)%Q -> exists m' a', back = [m'] /\ m_rate m' = QF a' false /\ (a' == a)%Q).
+Proof. exact (ms_round_trip_rate_exact_Q g0 g r k n evs evs' h T i j di dj m). Qed.
+
 Print Assumptions C09_fixed10_error.
 Print Assumptions C09_fixed10_stays_nonpositive.
 Print Assumptions C09_ms_at_scaled.
 Print Assumptions C09_ms_round_trip_rates.
+Print Assumptions C09_round_trip_rate_exact.
